@@ -557,7 +557,80 @@ func GenTimeSch(r *zv.Rng, depth int, allow26 bool) *Sch {
 }
 
 func emitTime(g *zv.Gen, op string, s *Sch, tag string) {
-	g.Emitf("c18 %s %s p=%s %s", op, s.String(), tag, GenValStr(g.Rng, s, tag, false))
+	val := GenValStr(g.Rng, s, tag, false)
+	g.Emitf("c18 %s %s p=%s %s", op, s.String(), tag, val)
+	if op == "tm" && FitsExt(s) {
+		emitExtDecode(g, s, tag, val)
+	}
+}
+
+// FitsExt: the schema lies in the extended embedding of lean/ZV/Model/C18Ext.lean - a struct each of whose fields is a
+// time.Time or a type without time.Time inside (any type of the old embedding).
+func FitsExt(s *Sch) bool {
+	if s.Kind != "S" {
+		return false
+	}
+	for _, f := range s.Fields {
+		if f.S.Kind != "time" && hasTime(f.S) {
+			return false
+		}
+	}
+	return true
+}
+
+// extTags: which branches of the extended model a tm line reaches.
+func extTags(s *Sch, tag string, tags map[string]bool) {
+	nt := 0
+	for i, f := range s.Fields {
+		if f.S.Kind != "time" {
+			tags["ext:neighbour:"+f.S.Kind] = true
+			continue
+		}
+		nt++
+		p := ParsePrm(f.Tag)
+		if p.Optional {
+			if i == len(s.Fields)-1 {
+				tags["ext:optional-time-last"] = true
+			} else {
+				tags["ext:optional-time-inner"] = true
+			}
+		}
+		if p.Explicit {
+			tags["ext:time-explicit"] = true
+		} else if p.HasTag {
+			tags["ext:time-implicit"] = true
+		}
+		if p.Time != "" {
+			tags["ext:time-"+p.Time] = true
+		}
+	}
+	tags[fmt.Sprintf("ext:time-fields:%d", nt)] = true
+	if tag != "" {
+		tags["ext:top-params"] = true
+	}
+}
+
+// emitExtDecode: the encoding (by the real code) of an extended-embedding value and mutants of it, for the decode op xu.
+func emitExtDecode(g *zv.Gen, s *Sch, tag string, val string) {
+	r := g.Rng
+	var der []byte
+	func() {
+		defer func() { recover() }()
+		t := s.Type()
+		v := BuildStr(s, t, val)
+		der, _ = asn1.MarshalWithParams(v.Interface(), tag)
+	}()
+	if der == nil || len(der) > 600 {
+		return
+	}
+	g.Emitf("c18 xu %s p=%s %s", s.String(), tag, hx(der))
+	for i := 0; i < 2; i++ {
+		m, _ := Mutate(r, der)
+		g.Emitf("c18 xu %s p=%s %s", s.String(), tag, hx(m))
+	}
+	if r.Chance(30) {
+		g.Emitf("c18 xu %s p=%s %s", s.String(), tag, hx(append(append([]byte{}, der...), r.Bytes(1+r.Intn(3))...)))
+	}
 }
 
 func tlv(tag byte, content []byte) []byte {
@@ -627,6 +700,18 @@ func genTime(g *zv.Gen) {
 		s := ParseSch(sh)
 		for i, n := 0, g.N(60, 1500); i < n; i++ {
 			emitTime(g, "tm", s, "")
+		}
+	}
+	// 2b. extended embedding: the same struct shapes under top-level parameters (MarshalWithParams / UnmarshalWithParams)
+	for _, sh := range shapes {
+		s := ParseSch(sh)
+		if !FitsExt(s) {
+			continue
+		}
+		for _, top := range []string{"explicit,tag:1", "tag:2", "application,tag:3", "private,explicit,tag:40", "optional", "set", "optional,tag:0", "utc", "ia5"} {
+			for i, n := 0, g.N(6, 100); i < n; i++ {
+				emitTime(g, "tm", s, top)
+			}
 		}
 	}
 	// 3. random schemas with time fields at every level
